@@ -44,6 +44,31 @@ def handle : Json → Except String Json := fun j => do
     pure (match transformKey a b with
       | .ok (x, y) => Json.mkObj [("src", x), ("dst", y)]
       | .error k => Json.mkObj [("err", k)])
+  | "task_list" => do
+    let items ← (← getArr j "items").toList.mapM fun x => x.getStr?
+    pure (Json.mkObj [("members", Json.arr ((setTaskLists items).map Json.str).toArray)])
+  | "task_dict" => do
+    -- keys in insertion order; the item of key number i is represented by i
+    let keys ← (← getArr j "keys").toList.mapM fun x => x.getStr?
+    let kv := keys.zipIdx
+    pure (Json.mkObj [("items", Json.arr ((setTaskDict kv).map fun e =>
+      Json.arr #[Json.str e.1, Json.num (JsonNumber.fromNat e.2)]).toArray)])
+  | "frame_ids" => do
+    let a ← j.getObjVal? "arg"
+    let arg ← match a with
+      | .str s => pure (FrameIdArg.one s)
+      | .arr xs => do pure (FrameIdArg.many (← xs.toList.mapM fun x => x.getStr?))
+      | _ => throw "arg must be a string or a list of strings"
+    pure (match frameIds arg with
+      | .ok ms => Json.mkObj [("members", Json.arr (ms.map Json.str).toArray)]
+      | .error k => Json.mkObj [("err", k)])
+  | "check_task" => do
+    let support ← (← getArr j "support").toList.mapM fun x => x.getStr?
+    let s ← getStr j "s"
+    pure (match checkTask support s with
+      | .ok (some m) => Json.mkObj [("member", m)]
+      | .ok none => Json.mkObj [("none", true)]
+      | .error k => Json.mkObj [("err", k)])
   | o => throw s!"unknown op {o}"
 
 end PEval.Driver.C20
